@@ -46,6 +46,7 @@ struct obj {
 	int		registered;	/* shadow */
 	int		reaper;
 	int		driver;		/* population driver task */
+	int		burner;		/* task that burns time towards the earliest deadline and re-registers itself this many times */
 	/* fd */
 	int		osfd, chan, side;
 	int		hvar[3];	/* installed handler variant per band, 0 = NULL */
@@ -157,7 +158,83 @@ static void sig_add(int prop, uint64_t h)
 }
 
 /* ------------------------------------------------------------------ */
+/*
+ * The harness's own reference priority queue of registered timers (a plain binary heap with lazy deletion,
+ * unrelated to the library's radix-tree heap): earliest registered expiry in O(log n).
+ */
+struct rh { int64_t exp; int obj; unsigned gen; };
+static struct rh *rheap;
+static int rh_n, rh_cap;
+
+static int64_t ts_ns_(const struct timespec *ts) { return (int64_t)ts->tv_sec * VT_NS + ts->tv_nsec; }
+
+static void rh_push_raw(int64_t exp, int obj, unsigned gen)
+{
+	int i = rh_n++;
+	while (i > 0 && rheap[(i - 1) / 2].exp > exp) {
+		rheap[i] = rheap[(i - 1) / 2];
+		i = (i - 1) / 2;
+	}
+	rheap[i].exp = exp; rheap[i].obj = obj; rheap[i].gen = gen;
+}
+
+static void rh_push(int64_t exp, int obj, unsigned gen)
+{
+	int i;
+	if (rheap == NULL) {
+		/* allocated once, at its final size, so that it does not show up as heap growth between cycles */
+		rh_cap = 4 * MAXOBJ;
+		rheap = malloc(sizeof(struct rh) * rh_cap);
+	}
+	if (rh_n == rh_cap) {
+		/* full of stale entries: rebuild from the registered timers */
+		int q;
+		rh_n = 0;
+		for (q = 0; q < nreg[K_TIMER]; q++) {
+			int o2 = reglist[K_TIMER][q];
+			rh_push_raw(ts_ns_(&objs[o2].expires), o2, objs[o2].gen);
+		}
+	}
+	i = rh_n++;
+	while (i > 0 && rheap[(i - 1) / 2].exp > exp) {
+		rheap[i] = rheap[(i - 1) / 2];
+		i = (i - 1) / 2;
+	}
+	rheap[i].exp = exp; rheap[i].obj = obj; rheap[i].gen = gen;
+}
+
+static void rh_pop(void)
+{
+	struct rh last = rheap[--rh_n];
+	int i = 0;
+	for (;;) {
+		int c = 2 * i + 1;
+		if (c >= rh_n)
+			break;
+		if (c + 1 < rh_n && rheap[c + 1].exp < rheap[c].exp)
+			c++;
+		if (rheap[c].exp >= last.exp)
+			break;
+		rheap[i] = rheap[c];
+		i = c;
+	}
+	if (rh_n > 0)
+		rheap[i] = last;
+}
+
 static int64_t ts_ns(const struct timespec *ts) { return (int64_t)ts->tv_sec * VT_NS + ts->tv_nsec; }
+
+/* earliest registered timer according to the shadow, or -1 */
+static int rh_min(void)
+{
+	while (rh_n > 0) {
+		struct obj *ob = &objs[rheap[0].obj];
+		if (ob->kind == K_TIMER && ob->registered && ob->gen == rheap[0].gen && ts_ns(&ob->expires) == rheap[0].exp)
+			return rheap[0].obj;
+		rh_pop();
+	}
+	return -1;
+}
 
 static void trace(const char *fmt, ...) __attribute__((format(printf, 1, 2)));
 static void trace(const char *fmt, ...)
@@ -702,6 +779,7 @@ static int timer_register(int reuse_o)
 	th(30, o, (uint64_t)(ts_ns(&t->expires) - vt_now()));
 	iv_timer_register(t);
 	set_registered(o, 1);
+	rh_push(ts_ns(&t->expires), o, objs[o].gen);
 	n = nreg[K_TIMER];
 	(void)i;
 	if (n > case_max_timers)
@@ -961,6 +1039,7 @@ static int pop_step(void)
 					t->expires.tv_sec += 10000000;
 					objs[o].expires = t->expires;
 					iv_timer_register(t);
+					rh_push(ts_ns(&t->expires), o, objs[o].gen);
 					if (rng_pct(&R, 70))
 						obj_unreg(o, 1);
 				}
@@ -1003,14 +1082,14 @@ enum {
 	A_FD_REG, A_FD_REGBAD, A_FD_UNREG, A_FD_SETH, A_CH_WRITE, A_CH_DRAIN, A_CH_FILL, A_CH_CLOSE,
 	A_TIMER_REG, A_TIMER_UNREG, A_TASK_REG, A_TASK_UNREG, A_EV_REG, A_EV_UNREG, A_EV_POST,
 	A_RAW_REG, A_RAW_UNREG, A_RAW_POST, A_SIG_REG, A_SIG_UNREG, A_SIG_RAISE, A_BURN, A_QUIT,
-	A_STIM, A_FD_REUSE, A_TRAIN, A_NACT
+	A_STIM, A_FD_REUSE, A_TRAIN, A_TASKBURN, A_NACT
 };
 static const unsigned char act_weight[A_NACT] = {
 	[A_FD_REG] = 10, [A_FD_REGBAD] = 2, [A_FD_UNREG] = 8, [A_FD_SETH] = 12, [A_CH_WRITE] = 12, [A_CH_DRAIN] = 8,
 	[A_CH_FILL] = 3, [A_CH_CLOSE] = 3, [A_TIMER_REG] = 10, [A_TIMER_UNREG] = 6, [A_TASK_REG] = 8,
 	[A_TASK_UNREG] = 4, [A_EV_REG] = 3, [A_EV_UNREG] = 3, [A_EV_POST] = 6, [A_RAW_REG] = 2, [A_RAW_UNREG] = 2,
 	[A_RAW_POST] = 5, [A_SIG_REG] = 2, [A_SIG_UNREG] = 2, [A_SIG_RAISE] = 4, [A_BURN] = 4, [A_QUIT] = 1,
-	[A_STIM] = 6, [A_FD_REUSE] = 3, [A_TRAIN] = 4,
+	[A_STIM] = 6, [A_FD_REUSE] = 3, [A_TRAIN] = 4, [A_TASKBURN] = 3,
 };
 
 static int self_obj = -1;	/* object whose handler is running (or -1) */
@@ -1191,6 +1270,16 @@ static void do_one_action(void)
 			S.quits++;
 			nt_c07 = 1;
 			iv_quit();
+		}
+		break;
+	case A_TASKBURN:
+		/* a task that keeps itself pending over several polls while (burnt) time runs past the earliest deadline */
+		{
+			int o2 = task_register(-1);
+			if (o2 >= 0) {
+				objs[o2].burner = 3 + rng_n(&R, 5);
+				trace("taskburn(#%d) ", o2); th(95, o2, objs[o2].burner);
+			}
 		}
 		break;
 	case A_TRAIN:
@@ -1385,20 +1474,29 @@ static void timer_cb(void *cookie)
 		mon_viol("C04", "clock-ahead", "timer", "loop clock %lld is ahead of the system clock %lld", (long long)ts_ns(&now), (long long)vt_now());
 	if (iv_timer_registered(ob->p))
 		mon_viol("C04", "timer-still-registered", "timer", "iv_timer_registered() is true inside the handler of timer #%d", o);
-	/* C05: no strictly earlier timer, registered before this round began, may still be waiting */
-	for (q = 0; q < nreg[K_TIMER]; q++) {
-		struct obj *t2;
-		i = reglist[K_TIMER][q];
-		t2 = &objs[i];
-		if (i == o || t2->fired)
-			continue;
-		if (t2->reg_seq < round_start_seq && ts_ns(&t2->expires) < ts_ns(&ob->expires))
-			mon_viol("C05", "timer-order", "timer", "timer #%d (expiry %lld) fired while timer #%d with earlier expiry %lld, registered before the round, is still waiting",
-				 o, (long long)ts_ns(&ob->expires), i, (long long)ts_ns(&t2->expires));
-	}
 	ob->fired = 1;
 	set_registered(o, 0);	/* one-shot: already unregistered on entry */
 	ob->gen++;
+	/* C05: no strictly earlier timer, registered before this round began, may still be waiting */
+	{
+		int m = rh_min();
+		if (m >= 0 && ts_ns(&objs[m].expires) < ts_ns(&ob->expires)) {
+			if (objs[m].reg_seq < round_start_seq) {
+				mon_viol("C05", "timer-order", "timer", "timer #%d (expiry %lld) fired while timer #%d with earlier expiry %lld, registered before the round, is still waiting",
+					 o, (long long)ts_ns(&ob->expires), m, (long long)ts_ns(&objs[m].expires));
+			} else {
+				/* the earliest one was registered during this round: look through the others (rare) */
+				for (q = 0; q < nreg[K_TIMER]; q++) {
+					struct obj *t2 = &objs[reglist[K_TIMER][q]];
+					if (t2->reg_seq < round_start_seq && ts_ns(&t2->expires) < ts_ns(&ob->expires)) {
+						mon_viol("C05", "timer-order", "timer", "timer #%d (expiry %lld) fired while timer #%d with earlier expiry %lld, registered before the round, is still waiting",
+							 o, (long long)ts_ns(&ob->expires), reglist[K_TIMER][q], (long long)ts_ns(&t2->expires));
+						break;
+					}
+				}
+			}
+		}
+	}
 
 	if (winding) {
 		obj_free(o);
@@ -1467,6 +1565,17 @@ static void task_cb(void *cookie)
 			task_register(o);
 		else
 			obj_free(o);
+		goto out;
+	}
+	if (ob->burner > 0) {
+		int m = rh_min();
+		int64_t d = m >= 0 ? ts_ns(&objs[m].expires) - vt_now() : 0;
+		ob->burner--;
+		if (d > 0) {
+			vt_burn(ob->burner > 1 ? d / 3 : d + 1000);	/* approach, then pass, the earliest deadline while the task stays pending */
+			iv_invalidate_now();
+		}
+		task_register(o);
 		goto out;
 	}
 	switch (rng_n(&R, 5)) {
@@ -1678,13 +1787,12 @@ void hk_wait_enter(struct vt_wait *w)
 			}
 		}
 	}
-	for (q = 0; q < nreg[K_TIMER]; q++) {
-		struct obj *ob;
-		i = reglist[K_TIMER][q];
-		ob = &objs[i];
-		if (ts_ns(&ob->expires) < E)
-			E = ts_ns(&ob->expires);
-		if (ts_ns(&ob->expires) <= V) {
+	i = rh_min();
+	if (i >= 0) {
+		struct obj *ob = &objs[i];
+		E = ts_ns(&ob->expires);
+		/* promptness is watched on the earliest timer (the others follow by the order rule) */
+		if (E <= V) {
 			if (ob->due_seen_iter < 0)
 				ob->due_seen_iter = iter;
 			else if (iter - ob->due_seen_iter >= 2 + (long)(vt_fault_fired() - case_inj0) + eintr_natural)
@@ -1892,7 +2000,7 @@ static unsigned swarm_mask(void)
 	else if (!strcmp(g_focus, "C02") || !strcmp(g_focus, "C03"))
 		m |= (1u << A_FD_REG) | (1u << A_FD_SETH) | (1u << A_CH_WRITE) | (1u << A_FD_REUSE) | (1u << A_CH_DRAIN);
 	else if (!strcmp(g_focus, "C04") || !strcmp(g_focus, "C05"))
-		m |= (1u << A_TIMER_REG) | (1u << A_TIMER_UNREG) | (1u << A_STIM) | (1u << A_CH_WRITE) | (1u << A_FD_REG) | (1u << A_TRAIN);
+		m |= (1u << A_TIMER_REG) | (1u << A_TIMER_UNREG) | (1u << A_STIM) | (1u << A_CH_WRITE) | (1u << A_FD_REG) | (1u << A_TRAIN) | (1u << A_TASKBURN);
 	else if (!strcmp(g_focus, "C06"))
 		m |= (1u << A_TASK_REG) | (1u << A_TASK_UNREG) | (1u << A_FD_REG) | (1u << A_TIMER_REG);
 	else if (!strcmp(g_focus, "C07"))
@@ -1909,13 +2017,14 @@ static void run_case(long id)
 
 	mon_case_id = id;
 	mon_viol_case = 0;
-	mon_watchdog(30);
+	mon_watchdog(pop_big ? 300 : 60);
 	rng_seed(&R, g_seed, (uint64_t)id);
 	vt_reset_case(mix64(g_seed ^ (uint64_t)id * 7919));
 	vt_set_single(1);
 
 	nobjs = 0; nchans = 0;
 	memset(nreg, 0, sizeof(nreg)); nreg_total = 0;
+	rh_n = 0;
 	memset(fd2chan, -1, sizeof(fd2chan));
 	iter = -1; in_main = 0; cb_depth = 0; in_wait = 0; quit_requested = 0;
 	cb_total = 0; cb_this_iter = 0; winding = 0; reap_triggered = 0; reaper_obj = -1;
@@ -2080,6 +2189,8 @@ int main(int argc, char **argv)
 	sample_left = (int)arg_ll(argc, argv, "--samples", 1);
 
 	pop_big = (int)arg_ll(argc, argv, "--big", 0);
+	rh_push(0, 0, 0);
+	rh_n = 0;
 	for (k = 0; k < K_NKIND; k++)
 		reglist[k] = malloc(sizeof(int) * MAXOBJ);
 	vt_init();
